@@ -135,6 +135,12 @@ func init() {
 							}
 							mk("vol0-other-0") // a foreign claim
 							mk("vol0-rep11-0") // a set whose name has this set's name as prefix
+							// claims of other sets named <this set>-<suffix> (another replica of the same deployment),
+							// at every ordinal this set has or gets
+							for i := 0; i <= hi; i++ {
+								mk(fmt.Sprintf("vol0-rep1-b-%d", i))
+								mk(fmt.Sprintf("vol1-rep1-0-%d", i))
+							}
 							cli.ClearActions()
 							m := k8sshard.VerifNewShardManager(cli, sts, 8080, del, c18Log(), nil)
 							err := m.ChangeScale(int32(nw))
